@@ -157,6 +157,9 @@ def c09_oracle(script, result):
                     elif owned and st["tracks"]:
                         return ("C09:merge_owned:returned-source", "merge_owned(keep) returned a track", i)
                     if cur != want:
+                        if sorted(cur) == sorted(want) and all(cur[a] == want[a] for a in cur if a != dst):
+                            return ("C09:merge:destination", "%s reported Ok but the destination is not what Track::merge of the two tracks over the requested classes "
+                                    "(all classes of the source when none are given) yields: got %r, expected %r" % (k, cur[dst], want[dst]), i)
                         return ("C09:merge:frame", "%s changed something other than the destination (or removed the source without being asked): ids before %r after %r"
                                 % (k, sorted(shadow), sorted(cur)), i)
         elif k == "LK":
